@@ -78,6 +78,8 @@ func NewNormalChol(mu []float64, chol *mat.Cholesky, src rand.Source) *Normal {
 		mu:  make([]float64, dim),
 	}
 	n.chol.Clone(chol)
+	n.sigma = *mat.NewSymDense(dim, nil)
+	n.chol.ToSym(&n.sigma)
 	copy(n.mu, mu)
 	n.logSqrtDet = 0.5 * n.chol.LogDet()
 	return n
